@@ -224,14 +224,17 @@ def check_spec(spec, meta, tier, index):
                         viols.append(C.viol(f"exception:{S}:{method}:{out['exc_type']}:{out.get('where', '')}", f'sum_product raised {out["exc"]}', context=ctx, traceback=out['tb']))
                         continue
                     # (b) exhausted budget => warning
-                    warned = any('maximum iteration' in w for w in out['warnings'])
-                    for e in events:
-                        if e['solver'] in ('fixed_point', 'newton') and e['returned']:
-                            last = e['stops'][-1] if e['stops'] else False
-                            if not last and not any('maximum iteration' in w for w in e['warnings']):
-                                viols.append(C.viol(f"budget-exhausted-silently:{e['solver']}",
-                                                    f"{e['solver']} returned after {len(e['stops'])} stopping tests (last verdict {last}, kmax={e['kmax']}) without a warning",
-                                                    context=ctx, trace=events))
+                    # The property is about what the caller observes: *some* warning during the call.  Where in
+                    # the library it is issued (inside the solver, or once per call) and its wording are
+                    # implementation choices, so the trace only tells us *that* a budget ran out.
+                    warned = len(out['warnings']) > 0
+                    exhausted = [e for e in events if e['solver'] in ('fixed_point', 'newton') and e['returned']
+                                 and not (e['stops'][-1] if e['stops'] else False)]
+                    if exhausted and not warned:
+                        e = exhausted[0]
+                        viols.append(C.viol(f"budget-exhausted-silently:{e['solver']}",
+                                            f"{e['solver']} returned after {len(e['stops'])} stopping tests (last verdict False, kmax={e['kmax']}) and the call emitted no warning",
+                                            context=ctx, trace=events))
                     if run['budget']:
                         obs['budget_runs'] += 1
                     if warned:
